@@ -38,14 +38,16 @@ def cases(tier):
         for vs, rows in placements:
             for mode in MODES:
                 for seq in (["direct"] if tier == "quick" else ["direct", "via-other", "after-invalid"]):
-                    out.append((f, list(vs), rows, mode, seq))
+                    out.append((f, list(vs), rows, mode, seq, "str"))
+                    if mode != "error" and rows == [0] and seq == "direct":
+                        out.append((f, list(vs), rows, mode, seq, "ord"))  # declared (non-alphabetical) level order
         # flavour variation for one placement
     return out
 
 
 def signature(case, v):
     info = v.get("info") or {}
-    sig = {"formula": case[0], "unseen_in": case[1], "rows": case[2], "mode": case[3], "seq": case[4], "what": v["label"].split(" [")[0]}
+    sig = {"formula": case[0], "unseen_in": case[1], "rows": case[2], "mode": case[3], "seq": case[4], "flavour": case[5], "what": v["label"].split(" [")[0]}
     if isinstance(info, dict) and "exc" in info:
         sig["exc"], sig["site"] = info["exc"], info.get("site")
     return sig
@@ -72,9 +74,9 @@ def set_mode(config, mode, seq, env):
 def harness(env, case):
     from formulae import config, design_matrices
 
-    formula, vs, rows_spec, mode, seq = case
+    formula, vs, rows_spec, mode, seq, flavour = case
     vars_ = gen.used_vars(formula)
-    df, rows = gen.build_frame(env, vars_, "str", "scramble", min_rows=5)
+    df, rows = gen.build_frame(env, vars_, flavour, "scramble", min_rows=5)
     n = len(df)
     pick = [0, n // 3, n // 2, n - 1]
     config["EVAL_UNSEEN_CATEGORIES"] = "error"
@@ -96,6 +98,8 @@ def harness(env, case):
         for r in rr:
             col[r] = UNSEEN[v]
         unseen[v] = pd.Series(col, dtype=df[v].dtype if v == "k" else "str")
+        if flavour == "ord" and v != "k":
+            seen[v] = pd.Series(list(seen[v].values), dtype="str")
         affected[v] = list(rr)
     try:
         set_mode(config, mode, seq, env)
